@@ -537,6 +537,48 @@ func generate(c *drv.Ctx) {
 	}
 	c.Extra["concurrent_cases"] = k
 	c.Extra["concurrent_requests"] = k * nConcReq
+
+	// (v) placeholder names that are prefixes of one another (id / id2 / idx / i, name / names / n / na), in both orders:
+	// every ordered pair in two-placeholder templates, a seeded sample of ordered triples in three-placeholder templates;
+	// each parameter must be bound by ITS name to ITS text.
+	prefixReqs := func(a API) []Req {
+		var reqs []Req
+		for i := 0; i < 3*len(a.Ops); i++ {
+			reqs = append(reqs, uniqueReq(c, a, i))
+		}
+		for i := 0; i < 4; i++ {
+			reqs = append(reqs, randomReq(c, a))
+		}
+		return reqs
+	}
+	nPre := 0
+	for i, x := range prefixNames {
+		for j, y := range prefixNames {
+			if i == j {
+				continue
+			}
+			a := API{Base: baseSpellings[(i+j)%len(baseSpellings)], Ops: []Op{
+				{Method: "GET", Segs: []Seg{lit("compare"), par(x), lit("with"), par(y)}},
+				{Method: "GET", Segs: []Seg{par(x), par(y)}},
+				{Method: "POST", Segs: []Seg{lit("a"), par(y), par(x), lit("b")}}}}
+			c.Case(descriptor(a, []string{"routes", "api"}[(i+j)%2], prefixReqs(a), nil, 0, nil))
+			nPre++
+		}
+	}
+	nTriples := 40
+	if thorough {
+		nTriples = 300
+	}
+	for n := 0; n < nTriples; n++ {
+		p := c.Rng.Perm(len(prefixNames))
+		x, y, z := prefixNames[p[0]], prefixNames[p[1]], prefixNames[p[2]]
+		a := API{Base: baseSpellings[c.Rng.Intn(len(baseSpellings))], Ops: []Op{
+			{Method: "GET", Segs: []Seg{lit("t"), par(x), par(y), lit("of"), par(z)}},
+			{Method: "PUT", Segs: []Seg{par(z), lit("u"), par(x), par(y)}}}}
+		c.Case(descriptor(a, []string{"routes", "api", "server"}[n%3], prefixReqs(a), nil, 0, nil))
+		nPre++
+	}
+	c.Extra["prefix_name_cases"] = nPre
 }
 
 func hasParamOp(a API) bool {
@@ -592,7 +634,10 @@ func uniqueReq(c *drv.Ctx, a API, i int) Req {
 
 var words = []string{"a", "b", "ab", "ba", "users", "user", "pets", "pet", "v1", "v2", "items", "item", "x", "y", "list",
 	"a-b", "a_b", "a.b", "1", "10", "a=b", "a;b", "a%20b", "a,b", "~a", "a+b", "a@b", "(a)", "a!b", "a$b", "a&b", "a'b"}
-var pnames = []string{"id", "name", "x", "y", "z", "k", "petId", "uid"}
+var pnames = []string{"id", "name", "x", "y", "z", "k", "petId", "uid", "id2", "idx", "i", "names", "n"}
+
+// placeholder names that are prefixes of one another
+var prefixNames = []string{"id", "id2", "idx", "i", "name", "names", "n", "na"}
 var allMethods = []string{"GET", "PUT", "POST", "DELETE", "OPTIONS", "HEAD", "PATCH"}
 
 func randomAPI(c *drv.Ctx) API {
